@@ -95,6 +95,19 @@ v('c18-benign-yield-then-local', 'benign', ['C18', 'C10'], R,
    "            # Pass that section up to the caller for processing.\n            yield section\n\n            valid_sections = VALID_SECTION_STATES[section_id]\n"))
 v('c18-valid-states-mutated', 'break', ['C18', 'C10'], R, ('            valid_sections = VALID_SECTION_STATES[section_id]\n', '            valid_sections = VALID_SECTION_STATES[section_id]\n            valid_sections.discard(Section.MAIN)\n'))
 v('c08-decode-handler-narrowed', 'break', ['C08'], R, ('            except UnicodeError:', '            except UnicodeDecodeError:'))
+v('c12-int-kept-only-if-canonical', 'break', ['C12'], R,
+  ("                try:\n                    option_value = int(option_value)\n                except ValueError:\n                    pass\n",
+   "                try:\n                    int_value = int(option_value)\n\n                    if '%d' % int_value == option_value:\n                        option_value = int_value\n                except ValueError:\n                    pass\n"))
+v('c13-merge-by-rebuild-benign', 'benign', ['C13', 'C18'], O,
+  ("            'lines changed': total_deletes + total_inserts,\n        }\n\n        # Set the computed stats. Don't override the key if there's something\n        # already there, since it might contain some custom stats.\n        if 'stats' in self.meta:\n            self.meta['stats'].update(stats)\n        else:\n            self.meta['stats'] = stats\n",
+   "            'lines changed': total_deletes + total_inserts,\n        }\n\n        self.meta['stats'] = dict(self.meta.get('stats', {}), **stats)\n"))
+v('c13-merge-reversed', 'break', ['C13'], O,
+  ("            'lines changed': total_deletes + total_inserts,\n        }\n\n        # Set the computed stats. Don't override the key if there's something\n        # already there, since it might contain some custom stats.\n        if 'stats' in self.meta:\n            self.meta['stats'].update(stats)\n        else:\n            self.meta['stats'] = stats\n",
+   "            'lines changed': total_deletes + total_inserts,\n        }\n\n        self.meta['stats'] = dict(stats, **self.meta.get('stats', {}))\n"))
+v('c13-lines-changed-derived', 'break', ['C13'], O,
+  ("            stats['lines changed'] += file_stats.get('lines changed', 0)\n", "            stats['lines changed'] = stats['insertions'] + stats['deletions']\n"))
+v('c18-iterator-memoised', 'break', ['C18'], T,
+  ("def split_lines(data, newline, keep_ends=False):", "import functools\n\n\n@functools.lru_cache(maxsize=None)\ndef _iter_lines(data, newline):\n    return iter(data.split(newline))\n\n\ndef split_lines(data, newline, keep_ends=False):"))
 # ---- C20
 v('c20-uncaptured-newline', 'break', ['C20'], L, ("_header_options = r'(?:( )([^\\n]*))?(\\n)'", "_header_options = r'(?:( )([^\\n]*))?\\n'"))
 v('c20-empty-rule', 'break', ['C20'], L, ("            (r'.*\\n', Text),\n        ],\n\n        'diff'", "            (r'.*\\n', Text),\n            (r'', Text),\n        ],\n\n        'diff'"))
